@@ -5,7 +5,7 @@
 
 package interp
 
-//@ props C19
+//@ props C19 C20
 
 // An execution environment made by NewExecEnv has its name in Args[0] and a
 // variable map.
@@ -25,9 +25,53 @@ package interp
 //@ func (*ExecEnv).keyFor
 //@   inline
 
+// ---- variable store (C20) ----
+//
+// The abstract view of the store is the map env.vars itself: mapview() is
+// the set of live names, mapvals() the values.
+
+//@ spec func optstr(o Option) string
+//@ spec func issp(s string) bool = s == "@" || s == "*" || s == "#" || s == "?" || s == "-" || s == "$" || s == "!" || s == "0"
+//@ spec func ispos(s string) bool = len(s) >= 1 && alldigits(s) && s != "0"
+
+//@ func (*ExecEnv).isSpParam
+//@   ensures[C20] result == issp(s)
+
+// Deliberately silent about "0", which every caller intercepts as a special
+// parameter first (DESIGN Appendix B).
 //@ func (*ExecEnv).isPosParam
 //@   loop "for _, r := range s" invariant forall j: 0 <= j < rangepos() ==> '0' <= s[j] && s[j] <= '9'
 //@   ensures result ==> alldigits(s) && len(s) >= 1
+//@   ensures[C20] s != "0" ==> result == ispos(s)
+
+// String reads nothing but its receiver: it is a function of o, named
+// optstr in the contracts (an assumption of determinism, not a proof).
+//@ func (Option).String
+//@   mode bv64
+//@   assumes result == optstr(o)
+
+//@ func (*ExecEnv).Get
+//@   preserves[C20] *
+//@   ensures[C20] name == "#" ==> v.Value == itoa(len(env.Args) - 1) && v.Name == name
+//@   ensures[C20] name == "?" ==> v.Value == "0" && set
+//@   ensures[C20] name == "-" ==> v.Value == optstr(env.Opts)
+//@   ensures[C20] name == "!" ==> !set
+//@   ensures[C20] name == "0" ==> v.Value == env.Args[0] && set == (env.Args[0] != "")
+//@   ensures[C20] ispos(name) && atoi(name) < len(env.Args) ==> set && v.Value == env.Args[atoi(name)]
+//@   ensures[C20] ispos(name) && atoi(name) >= len(env.Args) ==> !set
+//@   ensures[C20] !issp(name) && !ispos(name) ==> set == has(env.vars, name) && (set ==> v == env.vars[name])
+//@   ensures[C20] !set && !(!issp(name) && !ispos(name)) ==> v.Value == ""
+
+//@ func (*ExecEnv).Set
+//@   preserves[C20] F.interp.ExecEnv.* Mem.* MapHas.Str.Str MapVal.Str.Str F.ast.*
+//@   ensures[C20] issp(name) || ispos(name) ==> mapview(env.vars) == old(mapview(env.vars)) && mapvals(env.vars) == old(mapvals(env.vars))
+//@   ensures[C20] !(issp(name) || ispos(name)) ==> mapview(env.vars) == store(old(mapview(env.vars)), name, true)
+//@   ensures[C20] !(issp(name) || ispos(name)) ==> mapvals(env.vars) == store(old(mapvals(env.vars)), name, Var(name, value, false, false))
+
+//@ func (*ExecEnv).Unset
+//@   preserves[C20] F.interp.ExecEnv.* Mem.* MapHas.Str.Str MapVal.Str.Str F.ast.*
+//@   ensures[C20] mapview(env.vars) == store(old(mapview(env.vars)), name, false)
+//@   ensures[C20] forall k: true ==> true
 
 //@ func (*ExecEnv).Walk
 //@   requires fn != nil
